@@ -244,6 +244,40 @@ def case_variant_names(run):
         shutil.rmtree(d, ignore_errors=True)
 
 
+def direct_mode_last_token(run):
+    """Direct mode (normalize_column_names=False: the bare name is the variable): a name binds to its column wherever it stands in the query text,
+    in particular as its very last token."""
+    mods = impl.load()
+    rbql, eng, rcsv, cu = mods
+    from rbql import rbql_pandas
+    import pandas as pd
+    header = ['name', 'city', 'age']
+    data = [['ann', 'rome', '30'], ['bob', 'oslo', '25']]
+    for pos, name in enumerate(header):
+        other = header[(pos + 1) % 3]
+        for q, want in (('select ' + name, [[r[pos]] for r in data]),
+                        ('select %s, %s' % (other, name), [[r[(pos + 1) % 3], r[pos]] for r in data]),
+                        ('select %s order by %s' % (other, name), [[r[(pos + 1) % 3]] for r in sorted(data, key=lambda r: r[pos])]),
+                        ('select %s where "a" < %s' % (other, name), [[r[(pos + 1) % 3]] for r in data if 'a' < r[pos]])):
+            results = {}
+            try:
+                out = []
+                rbql.query_table(q, [list(r) for r in data], out, [], None, list(header), None, None, False)
+                results['list-direct'] = out
+            except Exception as e:  # noqa
+                results['list-direct'] = 'raised ' + str(e)[:80]
+            try:
+                results['pandas-direct'] = rbql_pandas.query_dataframe(q, pd.DataFrame(data, columns=header), normalize_column_names=False).values.tolist()
+            except Exception as e:  # noqa
+                results['pandas-direct'] = 'raised ' + str(e)[:80]
+            for backend, got in results.items():
+                run.traces += 1
+                run.count(['direct-last-token', q, backend], nontrivial=True)
+                if got != want:
+                    run.violation({'impl': 'py', 'backend': backend, 'what': 'direct mode: bare column name not bound (position in the query text matters)', 'query': q, 'got': got, 'want': want},
+                                  {'kind': 'direct_mode', 'query': q})
+
+
 def check(run):
     quick = run.tier == 'quick'
     maxname = 2 if quick else 3
@@ -280,6 +314,7 @@ def check(run):
         for sig in sigs:
             run.violation(sig, {'kind': 'modifier_case', 'case': case, 'k': k})
     case_variant_names(run)
+    direct_mode_last_token(run)
     run.exhaustive = True
 
 
